@@ -90,6 +90,44 @@ def _blocks(text):
     return out
 
 
+def _src_digest(vx):
+    """digest of everything the Go translator reads: the repository's Go sources and go.mod/go.sum, and the translator binary"""
+    import hashlib
+    h = hashlib.sha256()
+    h.update(open(vx, 'rb').read())
+    for root in ('pkg', 'internal', 'cmd'):
+        for dp, dn, fn in sorted(os.walk(os.path.join(REPO, root))):
+            dn.sort()
+            for f in sorted(fn):
+                if f.endswith('.go'):
+                    fp = os.path.join(dp, f)
+                    h.update(os.path.relpath(fp, REPO).encode() + b'\0')
+                    h.update(open(fp, 'rb').read())
+    for f in ('go.mod', 'go.sum'):
+        fp = os.path.join(REPO, f)
+        if os.path.exists(fp):
+            h.update(open(fp, 'rb').read())
+    return h.hexdigest()
+
+
+def _vx_cached(vx, sub, digest):
+    """run `vx <sub> REPO`, or reuse its output when neither the sources nor the translator changed since the last run
+    (the translator is deterministic; loading internal/driver with its dependencies takes a quarter of a minute)"""
+    cache = os.path.join(BUILD, 'vx_%s.cache.json' % sub)
+    try:
+        c = json.load(open(cache))
+        if c.get('digest') == digest and c.get('repo') == REPO:
+            return subprocess.CompletedProcess([vx, sub], c['rc'], c['stdout'], c['stderr'])
+    except Exception:
+        pass
+    p = subprocess.run([vx, sub, REPO], stdout=subprocess.PIPE, stderr=subprocess.PIPE, text=True, env=GOENV)
+    try:
+        json.dump({'digest': digest, 'repo': REPO, 'rc': p.returncode, 'stdout': p.stdout, 'stderr': p.stderr}, open(cache, 'w'))
+    except Exception:
+        pass
+    return p
+
+
 def regen():
     """Regenerate lean/LLRP/Gen/*.lean from /repo's working tree. Returns a list of (unit, message) failures.
 
@@ -100,8 +138,9 @@ def regen():
     os.makedirs(GEN, exist_ok=True)
     failures = []
     vx = build_vx()
+    digest = _src_digest(vx)
     # facts
-    p = subprocess.run([vx, 'facts', REPO], stdout=subprocess.PIPE, stderr=subprocess.PIPE, text=True, env=GOENV)
+    p = _vx_cached(vx, 'facts', digest)
     if p.returncode != 0:
         for sec in FACT_SECTIONS:
             failures.append(('facts:' + sec, 'vx facts: ' + p.stderr.strip()[-1200:]))
@@ -127,7 +166,7 @@ def regen():
         if not os.path.exists(funcs) and os.path.exists(os.path.join(GENBASE, mod + '.lean')):
             shutil.copy(os.path.join(GENBASE, mod + '.lean'), funcs)
         old = _blocks(open(funcs).read()) if os.path.exists(funcs) else {}
-        p = subprocess.run([vx, sub, REPO], stdout=subprocess.PIPE, stderr=subprocess.PIPE, text=True, env=GOENV)
+        p = _vx_cached(vx, sub, digest)
         if p.returncode != 0:
             for name in sorted(old) or ['*']:
                 failures.append((sub + ':' + name, p.stderr.strip()[-1200:]))
